@@ -262,3 +262,108 @@ func init() {
 		mc.Register("C07", "concurrent-replay-after-reopen/"+dir, "thorough", func(x *mc.Cell) { c07ConcurrentAfterReopen(x, dir, 2) })
 	}
 }
+
+// c07ReportVsRestart: a block report of a new position races with a restart of the channel and with the replay
+// of that same position by the restarted transport request. Scheduling points: the statements / atomics of the
+// index and progress caches and every datastore operation. Whatever the interleaving the position is counted
+// once: one progress event, byte total = sum of the distinct positions.
+func c07ReportVsRestart(x *mc.Cell, dir string, bound int) {
+	name := fmt.Sprintf("c07-report-vs-restart-%s/b%d", dir, bound)
+	filter := func(kind string, obj any) bool {
+		if kind == "atomic" {
+			return true
+		}
+		if kind == "stmt" {
+			s, _ := obj.(string)
+			return strings.HasPrefix(s, "channels/caches.go") || strings.HasPrefix(s, "ds:")
+		}
+		return false
+	}
+	progCode := map[string]datatransfer.EventCode{"received": datatransfer.DataReceivedProgress, "queued": datatransfer.DataQueuedProgress, "sent": datatransfer.DataSentProgress}[dir]
+	x.Enumerate(name, mc.EnumOpts{MaxDeviations: bound, DeviationCost: sched.Cost, MaxExecutions: 8000}, func(c *mc.Chooser) mc.Exec {
+		var ex mc.Exec
+		pv, stack := mc.Bubble(x.T, func() {
+			sys, err := l1chan.NewSys(nil)
+			if err != nil {
+				panic(err)
+			}
+			defer sys.Stop()
+			role := l1chan.InitPull
+			if dir != "received" {
+				role = l1chan.InitPush
+			}
+			chid, _ := sys.Create(role, 1, doubles.Voucher("T", "v"))
+			_ = sys.Ch.Accept(chid)
+			_ = sys.Ch.TransferInitiated(chid)
+			report := func(pos int) {
+				size := uint64(1) << uint(pos-1)
+				switch dir {
+				case "received":
+					_ = sys.Ch.DataReceived(chid, doubles.Cid("b"), size, int64(pos), true)
+				case "queued":
+					_ = sys.Ch.DataQueued(chid, doubles.Cid("b"), size, int64(pos), true)
+				default:
+					_ = sys.Ch.DataSent(chid, doubles.Cid("b"), size, int64(pos), true)
+				}
+			}
+			report(1)
+			mc.Wait()
+			report(2)
+			mc.Wait()
+			nEv := sys.NumEvents()
+			s := sched.New(filter)
+			defer s.Close()
+			s.Go("reporter", func() { report(3) })
+			s.Go("restart", func() { _ = sys.Ch.Restart(chid) })
+			s.Go("replay-by-restarted-request", func() { report(3) })
+			stuck, capped := s.Run(c, 6000, 0, 0)
+			s.Close()
+			mc.Wait()
+			rep := mc.EnumReplay(name, c)
+			if capped {
+				x.Cap(name + ": step cap")
+			}
+			if len(stuck) > 0 {
+				x.Violate("C20", "caches;threads-stuck;report-vs-restart", fmt.Sprintf("threads %v never finished; schedule %v", stuck, s.Trace), rep)
+				return
+			}
+			after, err := sys.Vec(chid)
+			if err != nil {
+				panic(err)
+			}
+			progress := 0
+			for _, e := range sys.EventsFrom(nEv) {
+				if e.Code == progCode {
+					progress++
+				}
+			}
+			var got uint64
+			switch dir {
+			case "received":
+				got = after.Received
+			case "queued":
+				got = after.Queued
+			default:
+				got = after.Sent
+			}
+			ex.Premise = true
+			ex.Outcome = fmt.Sprintf("progress=%d total=%d", progress, got)
+			if progress != 1 || got != 1+2+4 {
+				x.Violate("C07", fmt.Sprintf("concurrent;position-counted-%d-times-across-restart;dir=%s", progress, dir),
+					fmt.Sprintf("position 3 (4 bytes) reported once and replayed once across a restart: %d progress event(s), byte total %d (want 1 and 7); schedule %v", progress, got, s.Trace), rep)
+			}
+		})
+		if pv != nil {
+			x.Violate("C07", "panic;report-vs-restart", fmt.Sprintf("%v\n%s", pv, stack), mc.EnumReplay(name, c))
+		}
+		return ex
+	})
+}
+
+func init() {
+	for _, dir := range []string{"received", "queued", "sent"} {
+		dir := dir
+		mc.Register("C07", "report-racing-with-restart-and-replay/"+dir, "quick", func(x *mc.Cell) { c07ReportVsRestart(x, dir, 1) })
+		mc.Register("C07", "report-racing-with-restart-and-replay/"+dir, "thorough", func(x *mc.Cell) { c07ReportVsRestart(x, dir, 2) })
+	}
+}
